@@ -352,12 +352,15 @@ def random_value(sort, rng, depth=0):
     raise ValueError(f"no random generator for {sort!r}")
 
 
-def cross_check(spec, n=60, seed=0, max_tries=4000):
-    """Evaluate the contract natively on up to n random inputs that satisfy requires."""
+def cross_check(spec, n=60, seed=0, max_tries=4000, max_seconds=60):
+    """Evaluate the contract natively on up to n random inputs that satisfy requires (within max_seconds)."""
+    import time as _time
+
     rng = random.Random(seed)
     cfgs = list(configurations(spec))
     done, failures, tries = 0, [], 0
-    while done < n and tries < max_tries:
+    t_end = _time.time() + max_seconds
+    while done < n and tries < max_tries and _time.time() < t_end:
         tries += 1
         cfg = rng.choice(cfgs)
         try:
